@@ -293,6 +293,18 @@ pub fn run() -> i32 {
                 }
             }
         }
+        for op in 0..=12u8 {
+            for ls in 0..3u8 {
+                for rs in 0..3u8 {
+                    crate::sym::load(vec![vec![op], vec![ls], vec![rs]]);
+                    n += 1;
+                    if std::panic::catch_unwind(|| crate::node::c04_binary()).is_err() {
+                        c11_bad += 1;
+                        eprintln!("SELFTEST-FAIL: c04_binary: op={} shapes=({},{})", op, ls, rs);
+                    }
+                }
+            }
+        }
         for op in 0..2u8 {
             for k in 1..=9u8 {
                 for operand in 0..2u8 {
@@ -304,7 +316,7 @@ pub fn run() -> i32 {
                     }
                 }
             }
-            for len in 1..=40u8 {
+            for len in 1..=64u8 {
                 crate::sym::load(vec![vec![op], vec![len]]);
                 n += 1;
                 if std::panic::catch_unwind(|| crate::node::c04_chain()).is_err() {
